@@ -158,6 +158,8 @@ def chain(rng):
 
 PRELUDES = [
     "",
+    "#!/usr/bin/env seed\n",
+    "#!/usr/bin/env seed\n# é\n\n",
     "\n\n\n",
     "# comment é€😀\n\t# another\n",
     "s_q := \"multi\nline\n  é€ literal\"\n",
